@@ -515,6 +515,73 @@ def validate_traces(run, scratch, pairs):
     run.note("trace_validation", stats)
 
 
+# ------------------------------- many inputs: the scheduler's submission (ComposedAppSubmit.tla)
+BULK_FAIL = (["ok", "raise", "ok"], ["ok", "ok", "none"], ["nc", "ok", "ok"], ["ok", "wrong", "ok"])
+
+
+def start_bulk(run, scratch, in_dir):
+    """TLC on ComposedAppSubmit.tla (all orders for small windows; the refuted refill rule; the law
+    instantiated for n = 70 and 150), then the REAL parallel path with max_workers = 2 and that many
+    tiny inputs - more than any internal batching of the scheduler - for apply_to and as_completed"""
+    model(run, scratch, "MC_ComposedApp_submit.cfg", "submit(n<=5, windows 0-2, all orders)", False, "ComposedAppSubmit", 2)
+    cx = run_tlc("ComposedAppSubmit", "MC_ComposedApp_submit_cx.cfg", scratch, workers=1, must_pass=False)
+    if not (cx.violated and "NoneLost" in cx.out):
+        raise MachineryError("TLC did not refute NoneLost for Extra = 1:\n" + cx.out[-1500:])
+    recs = model(run, scratch, "MC_ComposedApp_submit_bulk.cfg", "submit(n=70,150)", True, "ComposedAppSubmit", 2)
+    jobs = {}
+    jid = 3 * 10**6
+    for r in sorted(recs, key=lambda r: r["n"]):
+        n = r["n"]
+        names = [f"b{i:03d}" for i in range(1, n + 1)]
+        d = Path(in_dir) / f"bulk-{n}"
+        d.mkdir(exist_ok=True)
+        impl_C14.prepare_named_inputs(d, names)
+        plan = [list(BULK_FAIL[i % len(BULK_FAIL)]) if k == "not_completed" else ["ok", "ok", "ok"] for i, k in enumerate(r["kinds"])]
+        base = {"n": n, "names": names, "naming": "bulk", "plan": plan, "w": 2, "order": [], "family": "seqs", "step2": None, "inputs": "path", "in_dir": str(d)}
+        for kind in ("apply_to", "as_completed"):
+            jid += 1
+            job = dict(base, id=jid, writer="write_seqs")
+            if kind == "as_completed":
+                job["kind"] = "as_completed"
+            jobs[jid] = (job, r)
+    return jobs, Masters([j for j, _ in jobs.values()], scratch, "bulk", 4)
+
+
+def judge_bulk(run, jobs, obs_all):
+    for j, (job, rec) in jobs.items():
+        o = obs_all[j]
+        n = job["n"]
+        what = job.get("kind", "apply_to")
+        detail = {"job": {k: v for k, v in job.items() if k not in ("in_dir", "plan", "names")}, "observed": {k: v for k, v in o.items() if k in ("ret", "exception", "traceback", "anomalies", "live_anomalies", "disk_anomalies")}}
+        if o.get("machinery"):
+            raise MachineryError(str(o.get("traceback")))
+        if o["ret"] != "ok":
+            run.fail(f"bulk:{what}:raised:{o.get('exception')}", detail, what="a parallel run over many inputs raised")
+            continue
+        if what == "as_completed":
+            got = [r["src"] for r in o["results"]]
+            kinds = {r["src"]: ("not_completed" if r["obj"]["k"] == "nc" else "completed") for r in o["results"]}
+        else:
+            got = [w["i"] for w in o["writes"]]
+            kinds = {i + 1: r["kind"] for i, r in enumerate(o["disk"]) if r["kind"] != "none"}
+        detail["observed"]["n_results"] = len(got)
+        missing = [i for i in range(1, n + 1) if i not in got]
+        detail["observed"]["inputs_without_result"] = missing[:20]
+        if missing:
+            run.fail(f"bulk:{what}:inputs-without-a-result", detail, what=f"{len(missing)} of {n} inputs were never accounted for")
+        if len(got) != len(set(got)):
+            run.fail(f"bulk:{what}:input-accounted-for-twice", detail)
+        wrong = [i for i in kinds if kinds[i] != rec["kinds"][i - 1]]
+        if wrong:
+            detail["observed"]["wrong_kind"] = wrong[:20]
+            run.fail(f"bulk:{what}:record-kind", detail)
+        if what == "apply_to" and (set(kinds) != set(got) or o.get("live_anomalies") or o.get("disk_anomalies")):
+            run.fail(f"bulk:{what}:store-differs-from-records-handed-over", detail)
+        count_case(dict(job, plan=[["bulk"]], inputs=f"n={n}"))
+    run.cov["traces_validated_against_impl"] += len(jobs)
+    run.note("many_inputs", {"runs": len(jobs), "inputs": sorted({job["n"] for job, _ in jobs.values()}), "max_workers": 2})
+
+
 # -------------------------------------------- growth: histories of runs, composition of objects
 def start_growth_models(run, scratch, tier):
     """TLC on ComposedAppRuns.tla (both store kinds) and ComposedAppLinks.tla, in the background"""
@@ -675,6 +742,7 @@ def check(run: Run):
             import apps_C14  # noqa: F401  (loaded once here, inherited by every forked worker)
             import cogent3.app.io  # noqa: F401
 
+            bulk_jobs, bulk_masters = start_bulk(run, scratch, in_dir)
             gex, gfuts = start_growth_models(run, scratch, tier)
             plans2, plans3, plans4 = gen_plans(2, run.seed), gen_plans(3, run.seed), gen_plans(4, run.seed)
             live = scratch / "live.plans.json"
@@ -823,6 +891,9 @@ def check(run: Run):
             ngrowth = replay_growth(run, scratch, in_dir, tier, gfuts)
             gex.shutdown()
 
+            judge_bulk(run, bulk_jobs, bulk_masters.collect())
+            bulk_masters = None
+
             # ------------------------------------------------ forced parallel schedules
             t0 = time.time()
             pobs = masters.collect()
@@ -865,6 +936,8 @@ def check(run: Run):
         finally:
             if masters is not None:
                 masters.kill()
+            if locals().get("bulk_masters") is not None:
+                bulk_masters.kill()
             if "gex" in locals():
                 gex.shutdown(wait=True, cancel_futures=True)
 
